@@ -412,6 +412,24 @@ def run(ctx):
             if ctx.shard == 0:
                 ctx.sample({"config": cfg, "catalog_sizes": [len(c) for c in fc["cats"]], "n_observed": len(fc["obs"]),
                             "histories": "all of length <= %d" % (3 if thorough else 2)})
+    # a swarm forecast: four catalogs of ~9000 events each in ONE space-magnitude bin (plus an empty catalog): each catalog's count fits a 16-bit
+    # integer, their sum over the forecast does not - the expected rate of that bin is the mean of the per-catalog counts all the same
+    for k, (src, hist) in enumerate((("memory", ["RATES", "COUNTS", "RATES"]), ("file_nostore", ["SCOUNTS", "RATES", "MCOUNTS"]))):
+        if (ctx.shard + k) % 2 and not thorough:
+            continue
+        cfg = {"source": src, "filters": False, "spatial": False}
+        r = ctx.rng("c13swarm", k)
+        fc = gen_forecast(r, cfg)
+        kk = sum(len(c) for c in fc["cats"])
+        heavy = []
+        for c in range(4):
+            n = int(r.integers(8800, 9300))
+            heavy.append([("s%d" % (kk + i), 1262304000000 + 1000 * (kk + i), 20.0 + 0.3, 10.0 + 0.7, 5.0, 5.08) for i in range(n)])
+            kk += n
+        fc["cats"] = heavy[:2] + [[]] + heavy[2:]
+        fc["hole"] = None
+        ctx.mon("workload:swarm-forecast", 1)
+        ex_history(ctx, fc, cfg, hist, {})
     # random longer histories
     for j in range((24000 if thorough else 300) // ctx.nshards):
         r = ctx.rng("c13", j)
